@@ -14,8 +14,10 @@ static size_t pick_size(cs_t *cs, size_t cap) {
     /* weighted towards small sizes */
     long k = cs_range(cs, 0, 9);
     size_t v;
-    if (k < 6) v = (size_t)cs_range(cs, 0, 20);
-    else v = (size_t)LAT[cs_range(cs, 0, NLAT - 1)];
+    if (k < 5) v = (size_t)cs_range(cs, 0, 20);
+    else if (k < 8) v = (size_t)LAT[cs_range(cs, 0, NLAT - 1)];
+    else if (k == 8) v = (size_t)cs_range(cs, 0, cap > 4200 ? 4200 : (long)cap);                 /* any size: magic lengths are not on the lattice */
+    else { long e = cs_range(cs, 2, 12); v = ((size_t)1 << e) + (size_t)cs_range(cs, 0, 15) - 8; } /* around every power of two */
     if (v > cap) v = cap;
     return v;
 }
